@@ -38,8 +38,75 @@ claim('C12',
       'Trusted: R-lit (vf/rlit.py, validated every run against the CPython parser on thousands of texts), CrossHair/z3, CPython\'s '
       'ast.parse/compile (C code; parses but does not execute). Bound: |s| <= 2/3. MiniBytes is dead code (checked: no references).',
       'CrossHair symbolic execution of the quoting code with eval replaced by a closed-literal recogniser; AST site inventory', 'DESIGN.md 4/C12')
-for _p in ['C02', 'C03', 'C04', 'C05', 'C06', 'C07', 'C08', 'C09', 'C10', 'C11']:
-    na(_p, 'check not built yet in this revision (planned: see DESIGN.md section 4); will be claimed when its harness lands')
+claim('C02',
+      'Bounded symbolic execution of the real printers: every expression slot x child kind (depth 2; depth 3 in thorough) and every '
+      'statement template of a bounded grammar is printed by the real unparse()/minify(all off) and re-parsed by CPython, compared '
+      'type- and sign-exactly (ast.dump); numeric constants incl. inf, 2**64, imaginary in 15 contexts; string/bytes bodies of '
+      'MiniString, OuterFString.str_for, f_string.Str/Bytes for all strings in bound against a reference literal decoder. Right '
+      'level: the unparse self-check compares constants with == (1 == 1.0 == True) and tests pin a few dozen snippets.',
+      'Trusted: CPython ast.parse/unparse/dump, CrossHair/z3, R-lit (validated each run). Bounds: grammar leaves are concrete; strings '
+      '|s| <= 2/3; 3.11 only in thorough. Token adjacency with symbolic token texts (C02c) not built.',
+      'CrossHair symbolic execution of ExpressionPrinter/ModulePrinter/f_string/ministring; CPython parser as oracle', 'DESIGN.md 4/C02, 8.3')
+claim('C03',
+      'The real bind/resolve/rename/hoist pipeline runs on scope skeletons whose identifiers are symbolic strings; an independent '
+      'implementation of CPython scoping (R-scope) decides, for every spelling of the names, that the partition of identifier '
+      'occurrences into bindings is unchanged, free/builtin references are not captured, inserted statements are well-formed alias '
+      'definitions and the result is compilable. Right level: the failing inputs are name coincidences (a variable called A, two holes '
+      'equal, a hole equal to a builtin) that no test samples; the solver enumerates the equality classes.',
+      'Trusted: R-scope (validated against symtable on the stdlib), CrossHair/z3, the 13-name builtin stub, hash/repr stubs in '
+      'rename_literals, deterministic AST hash. Bounds: 40 skeletons (quick: seeded rotation of 20), 3 symbolic names of length 1/3.',
+      'CrossHair symbolic execution of the rename pipeline with symbolic identifiers; reference scope resolver as oracle', 'DESIGN.md 4/C03, 8.3')
+claim('C04',
+      'Same pipeline and symbolic identifiers as C03; the postcondition is that attribute names, keyword-argument names, import names, '
+      'class-body names, keyword-passable parameters, dunder names and unbound names keep their spelling, and that module-level names '
+      'are unchanged / underscore-prefixed when rename_globals is off; plus the arg_rename_in_place kernel with symbolic decorator and '
+      'parameter names.',
+      'Trusted: as C03. Bounds: 40 skeletons (quick: 18), names of length 1/3; decorator |dec| <= 11.',
+      'CrossHair symbolic execution of the rename pipeline and of rename/util.arg_rename_in_place', 'DESIGN.md 4/C04, 8.3')
+claim('C05',
+      'Each real transformer is run alone on small neighbourhoods whose shape is a structure parameter and whose names/constants are '
+      'symbolic, and compared structurally with a reference implementation of the documented rewrite; the gating obligation runs the '
+      'real minify() with every stage replaced by a recorder for all option vectors (x tainted).',
+      'Trusted: the reference rewrites (harness/transkern.py, written from docs/source/transforms/*.rst), CrossHair/z3. '
+      '"Bisimilar compiled code" is replaced by structural equality with the reference; composition beyond stage order is outside.',
+      'CrossHair symbolic execution of the transformer classes and of minify() option gating', 'DESIGN.md 4/C05, 8.2')
+claim('C06',
+      'The real hoisting pipeline on skeletons with literals in every position the property names, identifiers symbolic: every alias '
+      'definition is the first statement (after docstrings/__future__ imports) of a function or module body that encloses all uses '
+      '(R-scope), has the identical type and value, is defined once and never collides; no literal in a pattern, __slots__, f-string '
+      'text or docstring position is replaced; plus the insert() kernel with a symbolic module name.',
+      'Trusted: as C03. Literal values are concrete per skeleton (type/equality pattern is what the code inspects).',
+      'CrossHair symbolic execution of rename_literals/rename/util.insert', 'DESIGN.md 4/C06, 8.2')
+claim('C07',
+      'fold_int: the real visit_BinOp decision logic for all ints 0 <= a,b < 10^6 and 13 operators with printing/evaluation replaced by '
+      'structural models (z3 integer arithmetic decides value/type/sign equality); fold_pairs / fold_nested / number_print: real printer '
+      'and real evaluation over representative literals of every numeric type, type-variant pairs in one module, 15 syntactic contexts.',
+      'Trusted: operator.* as reference semantics, the digit-count length model (fold_int), CPython eval on closed arithmetic text. '
+      'Float/complex operands are representatives, not symbolic.',
+      'CrossHair symbolic execution of FoldConstants.visit_BinOp (symbolic ints) + exhaustive forking over representative literals', 'DESIGN.md 4/C07, 8.2')
+claim('C08',
+      'Totality: the bounded grammar x option vectors through the real minify() with compile() as oracle; TokenPrinter.integer for every '
+      'digit count (repr stubbed by its ValueError contract); nested f-string str/bytes printers for all strings in bound; parser '
+      'rejection surfaces as SyntaxError under symbolic options. The known finding F09 is excluded by predicate and reported.',
+      'Trusted: CPython compile(), R-lit, CrossHair/z3. Bounds as C02 plus 33 option vectors.',
+      'CrossHair symbolic execution / exhaustive forking over the grammar; CPython compiler as oracle', 'DESIGN.md 4/C08, 8.4')
+claim('C09',
+      'Taint skeletons (exec/eval/locals/globals/vars in every position, star import, global declaration) with symbolic identifiers that '
+      'may shadow the trigger; whenever R-scope says the trigger is the builtin, the captured tree has exactly the nodes and spellings '
+      'of the input under all rename/hoist options.',
+      'Trusted: as C03.', 'CrossHair symbolic execution of bind/resolve/minify taint handling', 'DESIGN.md 4/C09')
+claim('C10',
+      'Pipeline as C03 with a symbolic preserved name passed as list or bare string, literal __all__ lists with symbolic entries; every '
+      'binding of that name keeps its spelling and the rest of the renaming stays binding-preserving; CLI comma splitting for all '
+      'list texts in bound.',
+      'Trusted: as C03 and C13. Bounds: names of length 3, lists of one name.',
+      'CrossHair symbolic execution of minify preserve handling, allow_rename_*, find__all__, do_minify', 'DESIGN.md 4/C10')
+claim('C11',
+      '2-call histories sharing the caller\'s list objects and the default options object (symbolic names): arguments unchanged, second '
+      'result equals a fresh run; set iteration order of the renamer\'s string sets as a symbolic rotation/reversal: output unchanged. '
+      'Threads and real hash seeds are outside (stated).',
+      'Trusted: as C03. Partly claimed: no thread interleavings, no PYTHONHASHSEED sweep, histories of length 2.',
+      'CrossHair symbolic execution of two minify() calls / of the renamer with nondeterministic set order', 'DESIGN.md 4/C11')
 na('C01', 'needs the run-time semantics of arbitrary modules (observational equivalence of two program runs); nothing a solver can '
           'encode - the mechanisms behind it are decided under C02-C09 (DESIGN.md 4/C01)')
 na('C17', 'quantifies over a pinned corpus of concrete real-world files (none present offline); the only symbolic lemma available is '
